@@ -40,10 +40,22 @@ func vServeTLS(srv *Server, first, inner []byte) vTLSRun {
 	if vSymbolic() {
 		raw := vNewConn(first)
 		raw.inner = vNewConn(inner)
-		srv.serve(context.Background(), raw) //nolint
+		vServeRecovered(srv, raw)
 		return vTLSRun{rawOut: raw.out, innerOut: raw.inner.out, closed: raw.closed >= 1}
 	}
 	return vServeTLSNative(srv, first, inner)
+}
+
+// vServeRecovered serves the connection the way an embedder that survives a
+// panicking callback would: whatever escapes serve is recovered here.
+func vServeRecovered(srv *Server, conn net.Conn) (escaped bool) {
+	defer func() {
+		if r := recover(); r != nil {
+			escaped = true
+		}
+	}()
+	srv.serve(context.Background(), conn) //nolint
+	return false
 }
 
 // ---- native side: real TLS ----
@@ -109,7 +121,7 @@ func vServeTLSNative(srv *Server, first, inner []byte) vTLSRun {
 			}
 		}
 	}()
-	srv.serve(context.Background(), tap) //nolint
+	vServeRecovered(srv, tap)
 	sc.Close()
 	<-done
 	tap.mu.Lock()
@@ -161,6 +173,15 @@ func VerifH11() {
 		return ctx, nil
 	})
 	w := &vWorld{parseMenu: 2, execMenu: 2}
+	// PANICS=1: the query sent inside the session may be one whose ParseFn panics
+	// (query text "boom"); whatever the library does about a panicking callback,
+	// it does it inside the TLS session
+	parse := func(ctx context.Context, query string) (PreparedStatements, error) {
+		if query == "boom" {
+			panic("verif: the parser panicked on " + query)
+		}
+		return w.parse(ctx, query)
+	}
 	opts := []OptionFn{MessageBufferSize(64), mw}
 	var tlsCfg *tls.Config
 	switch cfgKind {
@@ -172,12 +193,22 @@ func VerifH11() {
 	if !direct && tlsCfg != nil {
 		opts = append(opts, TLSConfig(tlsCfg))
 	}
-	srv, err := NewServer(w.parse, opts...)
+	srv, err := NewServer(parse, opts...)
 	vAssert("newserver-ok", err == nil)
 	if direct {
 		srv.TLSConfig = tlsCfg
 	}
 	session := vCat(vStartup(vKV([]byte("user"), []byte("u"))), vMsgBytes('X', nil))
+	if vParam("PANICS", 0) == 1 {
+		vAssume(cfgKind == 2)
+		session = vCat(vStartup(vKV([]byte("user"), []byte("u"))), vMsgBytes('Q', vCStr([]byte("boom"))), vMsgBytes('X', nil))
+		run := vServeTLS(srv, vCat(vSSLRequest, stuffed), session)
+		vAssert("ssl-accepted-with-single-S", len(run.rawOut) >= 1 && run.rawOut[0] == 'S')
+		vAssert("nothing-but-TLS-after-S", vOnlyTLSRecords(run.rawOut[1:]))
+		vAssert("session-inside-TLS-wellformed", vWireOK(run.innerOut))
+		vReach("callback-panicked-inside-tls")
+		return
+	}
 	repeatInside := nondetBool()
 	if repeatInside {
 		// a second SSLRequest sent inside the TLS session, then a startup packet
